@@ -1009,13 +1009,13 @@ def guard_case_to_coq(it) -> str:
             f"{gn(it['max_iter'])} {it['start']} {gn(it['got'])})")
 
 
-def run_simple_cases(wd: Path, stem: str, typ: str, okfn: str, coq_items: list[str], shard=2000):
+def run_simple_cases(wd: Path, stem: str, typ: str, okfn: str, coq_items: list[str], shard=2000, extra_import=""):
     """returns (bad indices, errors)"""
     files = []
     for k in range(0, len(coq_items), shard):
         p = wd / f"{stem}_{k // shard}.v"
         body = ";\n ".join(coq_items[k:k + shard])
-        p.write_text(HEADER + f"Definition cases : list {typ} := [\n {body}\n].\n"
+        p.write_text(HEADER + extra_import + f"Definition cases : list {typ} := [\n {body}\n].\n"
                      f"Eval vm_compute in (bad_idx {okfn} cases).\n")
         files.append(p)
     results = common.run_case_files(files)
